@@ -15,7 +15,7 @@ CFG['rename'].update({(_S, 'find', 2, 'args:Str,default'): 'Str__find', (_S, 'rf
 CFG['defaults'].update({('Str__find', 1): '0', ('Str__rfind', 1): 'STR_NPOS'})
 CFG['types'] = dict(CFG['types']); CFG['types'].update({'vector<std::string>': 'Vec_Str', 'std::vector<std::string>': 'Vec_Str', 'std::vector<std::basic_string<char>>': 'Vec_Str', 'vector<std::basic_string<char>>': 'Vec_Str'})
 STRUCTS = list(_c16.STRUCTS)
-PRE_STRUCTS = _c16.PRE_STRUCTS + 'VEC_DECL(Str, Vec_Str)\n'
+PRE_STRUCTS = _c16.PRE_STRUCTS   # declares Deq_Str and Vec_Str
 PRELUDE = _c16.PRELUDE
 STUB_CONTRACTS = set()
 # the same extracted functions as C16, used here with their real bodies only (no contracts)
